@@ -3,8 +3,8 @@ package gosx
 import (
 	"encoding/json"
 	"fmt"
-	"strings"
 	"go/types"
+	"strings"
 )
 
 func fieldIndex(st *types.Struct, name string) int {
